@@ -45,7 +45,7 @@ CodeNL == IF TR.code = <<>> \/ TR.code[Len(TR.code)] # 10 THEN TR.code \o <<10>>
 MusicCh4(a) == a >= MUS /\ a < SFX /\ (a - MUS) % 4 = 3
 RbOK == \A d \in 1..Len(TR.rb.diff) : LET a == TR.rb.diff[d][1] v == TR.rb.diff[d][2] IN MusicCh4(a) /\ v = Mem(a) % 128
 Final ==
-  IF TR.focus = "C16" THEN Stop("ok")
+  IF TR.focus = "C16" THEN (IF ~RbOK THEN Stop("readback-memory") ELSE Stop("ok"))   \* the reader decodes the rows to the same bytes
   ELSE IF TR.lua # Encode(CodeNL) THEN Stop("lua-section")
   ELSE IF ~RbOK THEN Stop("readback-memory")
   ELSE IF TR.rb.code # CodeNL THEN Stop("readback-code")
